@@ -387,10 +387,8 @@ Proof.
     cbn [blocks_bytes]. rewrite <- app_assoc.
     destruct (cblock_bytes_first c) as (b & rest & Heq & Hne).
     cbn [dec_blocks].
-    assert (Hm : forall (X : Type) (k1 : list N -> X) (k2 : X),
-               match (cblock_bytes c ++ blocks_bytes l ++ 255 :: r) with 255 :: r0 => k1 r0 | _ => k2 end = k2).
-    { intros X k1 k2. rewrite Heq. cbn [app]. destruct b as [|pb]; [reflexivity|].
-      repeat (destruct pb as [pb|pb|]; try reflexivity). exfalso. apply Hne. reflexivity. }
+    assert (Hm : starts_with 255 (cblock_bytes c ++ blocks_bytes l ++ 255 :: r) = false).
+    { rewrite Heq. cbn [app starts_with]. apply N.eqb_neq. exact Hne. }
     rewrite Hm. rewrite dec_cblock_enc by exact Hc.
     rewrite IH; [rewrite <- app_assoc; reflexivity|exact Hl|cbn in Hfuel; lia].
 Qed.
@@ -418,7 +416,7 @@ Theorem dec_bundle_enc now b r :
   dec_bundle now (bundle_bytes b ++ r) = Some (b, r).
 Proof.
   unfold bundle_wf. intros H Hv. apply andb_prop in H. destruct H as [Hp Hb].
-  unfold dec_bundle, bundle_bytes. cbn [app]. rewrite <- !app_assoc.
+  unfold dec_bundle, bundle_bytes. cbn [app starts_with tl]. rewrite N.eqb_refl. rewrite <- !app_assoc.
   rewrite dec_primary_enc by exact Hp. cbn [nobrk].
   cbn [app]. rewrite dec_blocks_enc; [|exact Hb|].
   - cbn [app]. destruct b as [p bl]. cbn [b_pri b_blocks] in *. rewrite Hv. reflexivity.
